@@ -153,8 +153,8 @@ func (g *Gen) genOpt(used map[string]bool) OptDef {
 	if g.pct(8) {
 		o.SuggestFn = 1 + g.r.Intn(4)
 	}
-	if g.pct(5) {
-		o.SetCalled = 1 + g.r.Intn(2)
+	if g.pct(5) || (o.Env != "" && g.pct(15)) {
+		o.SetCalled = 1 + g.r.Intn(4)
 	}
 	if g.pct(30) {
 		o.Desc = []string{"a description", "multi\nline description", "é description"}[g.r.Intn(3)]
